@@ -472,7 +472,9 @@ class Driver:
                 if a.v in [mb["value"] for mb in e["members"]]:
                     return "yes"
                 return "maybe" if -2 ** 31 <= a.v < 2 ** 31 else "oor"
-            if c in ("bool", "float", "enum", "obj"):
+            if c == "bool":
+                return "yes" if int(a.v) in [mb["value"] for mb in e["members"]] else "maybe"
+            if c in ("float", "enum", "obj"):
                 return "maybe"
             return "no"
         if k == "float":
@@ -820,8 +822,21 @@ class Driver:
             elif len(main) != 1 or main[0][0] not in exp_eids:
                 ran = [next((f for f in self.all_fns() if f["eid"] == e), None) for e, _, _ in main]
                 rans = ";".join(",".join(tcat(p["type"]) for p in f["params"]) if f else "?" for f in ran) or "nothing"
-                self.bad(f"wrong-overload:nargs={len(args) + len(kw)}:expected={','.join(tcat(p['type']) for p in f0['params'])}"
-                         f":ran={rans}", call=callsig, expected_eids=sorted(exp_eids), trace=[l for _, _, l in ev][:6])
+                if len(ran) == 1 and ran[0] in fns:
+                    rsl = self.bind(ran[0], args, kw)
+                    if rsl and all(s_ is None or self.acc(s_, p_["type"]) == "yes" or
+                                   (s_.c == "int" and p_["type"]["k"] == "float") for s_, p_ in zip(rsl, ran[0]["params"])):
+                        # an overload tried earlier took a Python int for a float/double parameter although another
+                        # overload matches the integer exactly
+                        self.bad("wrong-overload:int-taken-as-float-by-earlier-overload", call=callsig,
+                                 expected=",".join(tkind(p["type"]) for p in f0["params"]),
+                                 ran=",".join(tkind(p["type"]) for p in ran[0]["params"]), trace=[l for _, _, l in ev][:6])
+                        rans = None
+                if rans is None:
+                    pass
+                else:
+                    self.bad(f"wrong-overload:nargs={len(args) + len(kw)}:expected={','.join(tcat(p['type']) for p in f0['params'])}"
+                             f":ran={rans}", call=callsig, expected_eids=sorted(exp_eids), trace=[l for _, _, l in ev][:6])
             else:
                 eid, fl, line = main[0]
                 self.count("trace_events_compared")
@@ -1212,11 +1227,11 @@ class Driver:
         if op == "+=" and recv is not None and recv.const:
             return None
         self.ctxkey = None
-        if op in CMP_OPS and recv is not None and (g["owner"] != recv.cls or any(
-                a.c == "obj" and a.t.cls != recv.cls and self.isa(a.t.cls, recv.cls) for a in args)):
+        if op in CMP_OPS and any(a.c == "obj" and a.t.cls != recv.cls and self.isa(a.t.cls, recv.cls) for a in args):
+            return None      # Python's data model asks the more derived right operand first: not the binding's doing
+        if op in CMP_OPS and recv is not None and g["owner"] != recv.cls:
             # the rich-compare slot of a Python type is one function: a class that declares a comparison operator of
             # its own, or whose first base has none, does not reach the comparison operators it inherits in C++
-            # (Python also asks the more derived operand first)
             self.ctxkey = "inherited-comparison-lost"
         alias = r.randrange(2) if g["kind"] in ("free", "method") else 0
         what = g["name"] if g["kind"] != "ctor" else g["name"]
